@@ -19,6 +19,7 @@ import Proofs.GoTiePluginR
 import Proofs.GoTiePluginI
 import Proofs.GoTieWriteStanza
 import Proofs.GoTiePluginUI
+import Props.C16
 namespace AgeModel
 namespace Tie.C16
 open Extracted Plugin GoTie
@@ -73,6 +74,63 @@ theorem handle_tie {χ : Type} (E : GoTie.UIEnv χ) (u : GoTie.PureUI) (eU : Go.
       | .fatal => out.1 = true ∧ out.2.1 ≠ none ∧ E.absC out.2.2 = E.absC conn
       | .unknown => out.1 = false ∧ out.2.1 = none ∧ E.absC out.2.2 = E.absC conn :=
   GoTie.handle_tie E u eU name conn m
+
+/-! ### Two clauses of the property, stated about the CODE
+
+Through `recipient_client_tie`, theorems of `Props.C16` about the model's `recipientClient` become
+statements about `(*Recipient).WrapWithLabels` as it stands in the source. -/
+
+/-- a plugin whose output ends without `done` — cleanly, inside a stanza or with malformed framing — makes the translated
+    `WrapWithLabels` return an ERROR and no stanzas, whatever it said before -/
+theorem code_wrap_eof_is_error {S σ υ χ : Type} (E : PluginEnv S σ υ χ)
+    (identityMode : Bool) (encoding grease : String) (fileKey : Bytes) (h : Props.C16.noDone E.script.msgs) :
+    ∃ (res : List age_Stanza × Option (List Bytes) × Option Go.Err) (c : χ),
+      plugin_Recipient_WrapWithLabels E.Open E.W E.Close (bs grease) E.WB E.New E.Rd E.Hd E.rem
+        ⟨E.name, bs encoding, E.u, identityMode⟩ fileKey = .ok (res.1, res.2.1, res.2.2, some c) ∧
+      res.1 = [] ∧ res.2.2 ≠ none := by
+  obtain ⟨res, c, hrun, _, _, hres⟩ := GoTie.recipient_client_tie E identityMode encoding grease fileKey
+  refine ⟨res, c, hrun, ?_⟩
+  obtain ⟨err, herr, hhard⟩ := Props.C16.eof_is_error_recipient E.ui E.dec E.st0 identityMode encoding fileKey grease
+    E.script.msgs E.script.fin h
+  have hc : (⟨E.script.msgs, E.script.fin⟩ : Conv) = E.script := rfl
+  rw [hc] at herr
+  rw [herr] at hres
+  obtain ⟨h1, _, h3⟩ := hres
+  refine ⟨h1, ?_⟩
+  cases err <;> simp only [rErrRel] at h3
+  · rw [h3]; simp
+  · rcases h3 with h3 | ⟨k, _, h3⟩ <;> rw [h3] <;> simp
+  · rw [h3]; simp
+  · rw [h3]; simp
+
+/-- the translated `WrapWithLabels` never succeeds with zero stanzas: what it returns without error are exactly the stanzas
+    of the plugin's `recipient-stanza` messages, in order, at least one -/
+theorem code_wrap_never_empty {S σ υ χ : Type} (E : PluginEnv S σ υ χ)
+    (identityMode : Bool) (encoding grease : String) (fileKey : Bytes)
+    (res : List age_Stanza × Option (List Bytes) × Option Go.Err) (c : Option χ)
+    (hrun : plugin_Recipient_WrapWithLabels E.Open E.W E.Close (bs grease) E.WB E.New E.Rd E.Hd E.rem
+        ⟨E.name, bs encoding, E.u, identityMode⟩ fileKey = .ok (res.1, res.2.1, res.2.2, c))
+    (hok : res.2.2 = none) :
+    res.1 ≠ [] ∧ res.1 = (wrappedOf E.script.msgs).map goAS := by
+  obtain ⟨res', c', hrun', _, _, hres⟩ := GoTie.recipient_client_tie E identityMode encoding grease fileKey
+  rw [hrun'] at hrun
+  simp only [Except.ok.injEq, Prod.mk.injEq] at hrun
+  obtain ⟨e1, _, e3, _⟩ := hrun
+  cases hr : (recipientClient E.ui E.dec E.st0 identityMode encoding fileKey grease E.script).result with
+  | ok v =>
+    obtain ⟨ws, l⟩ := v
+    rw [hr] at hres
+    obtain ⟨h1, _, _⟩ := hres
+    have hspec := (Props.C16.no_stanza_wrap_fails E.ui E.dec E.st0 identityMode encoding fileKey grease E.script).1 ws l hr
+    rw [← e1, h1]
+    refine ⟨?_, by rw [hspec.2.1]⟩
+    intro hnil
+    exact hspec.1 (List.map_eq_nil_iff.mp hnil)
+  | error err =>
+    rw [hr] at hres
+    obtain ⟨_, _, h3⟩ := hres
+    rw [e3, hok] at h3
+    cases err <;> simp [rErrRel] at h3
 
 end Tie.C16
 end AgeModel
